@@ -169,6 +169,26 @@ VARIANTS = [
      "old": "        new_id = orig_id + self._injection_base\n        for packet_id in self.injections:\n            if new_id < packet_id and new_id not in self.injections:\n                break\n            new_id += 1\n",
      "new": "        start = orig_id + self._injection_base\n        new_id = next((cand for n, inj in enumerate(self.injections)\n"
             "                       if (cand := start + 2 * n) < inj and cand not in self.injections), start + len(self.injections))\n"},
+    # ------------------------------------------------------------------ R6 finalized before the rewrite
+    {"name": "R6 message finalized only at the return points", "expect": "C04.R6", "edits": [
+        {"file": CIRC, "old": "        message.finalized = True\n\n        # Injected, let's gen an ID\n", "new": "        # Injected, let's gen an ID\n"},
+        {"file": CIRC, "old": "            message.send_flags &= ~PacketFlags.ACK\n        return True\n",
+         "new": "            message.send_flags &= ~PacketFlags.ACK\n        message.finalized = True\n        return True\n"}]},
+    {"name": "R6 message finalized after the ID rewrite", "expect": "C04.R6", "edits": [
+        {"file": CIRC, "old": "        message.finalized = True\n\n        # Injected, let's gen an ID\n", "new": "        # Injected, let's gen an ID\n"},
+        {"file": CIRC, "old": "            fwd_injections.track_seen(message.packet_id)\n",
+         "new": "            fwd_injections.track_seen(message.packet_id)\n            message.finalized = True\n"}]},
+    {"name": "P R6 finalized set right after the guards, before looking up the trackers", "expect": "silent", "edits": [
+        {"file": CIRC, "old": "        message.finalized = True\n\n        # Injected, let's gen an ID\n", "new": "        # Injected, let's gen an ID\n"},
+        {"file": CIRC, "old": "        fwd_injections, reverse_injections = self._get_injections(message.direction)\n\n        # Injected",
+         "new": "        message.finalized = True\n        fwd_injections, reverse_injections = self._get_injections(message.direction)\n\n        # Injected"}]},
+    {"name": "P R6 finalized set in a finally around the rewrite", "expect": "silent", "edits": [
+        {"file": CIRC, "old": "        message.finalized = True\n\n        # Injected, let's gen an ID\n        if message.packet_id is None:\n"
+                              "            message.packet_id = fwd_injections.gen_injectable_id()\n            message.synthetic = True\n",
+         "new": "        # Injected, let's gen an ID\n        if message.packet_id is None:\n            try:\n"
+                "                message.packet_id = fwd_injections.gen_injectable_id()\n            finally:\n"
+                "                message.finalized = True\n            message.synthetic = True\n"},
+        {"file": CIRC, "old": "        elif not message.synthetic:\n", "new": "        elif not message.synthetic:\n            message.finalized = True\n"}]},
     # ------------------------------------------------------------------ documented limits
     {"name": "X forward shift boundary < -> <= (value-level)", "file": CIRC, "expect": "miss",
      "old": "if new_id < packet_id and new_id not in self.injections:", "new": "if new_id <= packet_id and new_id not in self.injections:"},
